@@ -80,6 +80,9 @@ type result struct {
 	probeConverged  bool
 }
 
+// flagWired: this process composes its (single) watcher through fingerproxy.VerifNewApp (child mode).
+var flagWired bool
+
 type histRun struct {
 	h    *history
 	pool *pairPool
@@ -591,15 +594,33 @@ func runHistory(h *history, pool *pairPool, isolated bool) *result {
 	hr.certFrom[h.Init] = 0
 	hr.keyFrom[pool.keyOf[h.Init]] = 0
 
-	cw, err := certwatcher.New(hr.certPath, hr.keyPath)
-	if err != nil {
-		return harness("certwatcher.New on a valid initial pair: %v", err)
-	}
 	ctx, cancel := context.WithCancel(context.Background())
 	startDone := make(chan error, 1)
-	go func() { startDone <- cw.Start(ctx) }()
+	var cw *certwatcher.CertWatcher
+	var wiredCfg *tls.Config
+	if flagWired {
+		// the watcher and the TLS parameters come out of the command-line wiring (initCertWatcher,
+		// defaultTLSConfig), which starts the watcher itself; one composition per process (see main)
+		app, err := fingerproxy.VerifNewApp(ctx, []string{"-cert-filename=" + hr.certPath, "-certkey-filename=" + hr.keyPath}, nil)
+		if err != nil || app.CertWatcher == nil {
+			cancel()
+			return harness("VerifNewApp with a valid initial pair: %v", err)
+		}
+		cw, wiredCfg = app.CertWatcher, app.TLSConfig
+	} else {
+		var err error
+		cw, err = certwatcher.New(hr.certPath, hr.keyPath)
+		if err != nil {
+			cancel()
+			return harness("certwatcher.New on a valid initial pair: %v", err)
+		}
+		go func() { startDone <- cw.Start(ctx) }()
+	}
 	stopWatcher := func() bool {
 		cancel()
+		if flagWired {
+			return true // the process ends after this history
+		}
 		select {
 		case <-startDone:
 			return true
@@ -653,6 +674,9 @@ func runHistory(h *history, pool *pairPool, isolated bool) *result {
 		return harness("listen: %v", err)
 	}
 	cfg := fingerproxy.VerifDefaultTLSConfig(cw) // the real defaultTLSConfig: GetCertificate = cw.GetCertificate
+	if wiredCfg != nil {
+		cfg = wiredCfg
+	}
 	var srvWG, cliWG sync.WaitGroup
 	srvWG.Add(1)
 	go hr.serve(ln, cfg, &srvWG)
